@@ -311,6 +311,22 @@ val enc3 : z -> z list
 
 val enc4 : z -> z list
 
+val eNC2_LIMIT : z
+
+val eNC3_LIMIT : z
+
+val lATIN1_MAX : z
+
+val pAD_LIMIT : z
+
+val cHARS_SIZE : z
+
+val sURR_LO : z
+
+val sURR_HI : z
+
+val padded_consts : z list
+
 val utf8_enc_c : z -> z list
 
 val is_cont : z -> bool
@@ -318,8 +334,6 @@ val is_cont : z -> bool
 val is_surrogate : z -> bool
 
 val utf8_decode : z list -> z list option
-
-val cHARS_SIZE : z
 
 val from_ordinal_padded_b : z -> z -> z -> cres
 
